@@ -49,9 +49,109 @@ struct Model {
 
 static MD: Metadata<'static> = Metadata::new("c12", Level::INFO, None);
 
+// ------------------------------------------------------------------------------------------
+// An observation landing in the middle of an update (the storage operation itself is paused by the storage double):
+// the metric was updated after the previous observation, so the observation after the next timeout must keep it with
+// the new value — whatever order the update's value write and its generation bump are made in.
+// ------------------------------------------------------------------------------------------
+struct PauseCounter {
+    v: std::sync::atomic::AtomicU64,
+    gate: std::sync::Mutex<Option<(std::sync::mpsc::Sender<()>, std::sync::mpsc::Receiver<()>)>>,
+}
+impl metrics::CounterFn for PauseCounter {
+    fn increment(&self, x: u64) {
+        let g = self.gate.lock().unwrap().take();
+        if let Some((entered, release)) = g {
+            let _ = entered.send(());
+            let _ = release.recv_timeout(Duration::from_secs(5));
+        }
+        self.v.fetch_add(x, std::sync::atomic::Ordering::SeqCst);
+    }
+    fn absolute(&self, x: u64) {
+        self.v.fetch_max(x, std::sync::atomic::Ordering::SeqCst);
+    }
+}
+struct PauseStorage {
+    made: std::sync::Mutex<Vec<std::sync::Arc<PauseCounter>>>,
+}
+impl metrics_util::registry::Storage<Key> for PauseStorage {
+    type Counter = std::sync::Arc<PauseCounter>;
+    type Gauge = std::sync::Arc<std::sync::atomic::AtomicU64>;
+    type Histogram = std::sync::Arc<metrics_util::storage::AtomicBucket<f64>>;
+    fn counter(&self, _: &Key) -> Self::Counter {
+        let c = std::sync::Arc::new(PauseCounter { v: Default::default(), gate: std::sync::Mutex::new(None) });
+        self.made.lock().unwrap().push(c.clone());
+        c
+    }
+    fn gauge(&self, _: &Key) -> Self::Gauge {
+        Default::default()
+    }
+    fn histogram(&self, _: &Key) -> Self::Histogram {
+        std::sync::Arc::new(metrics_util::storage::AtomicBucket::new())
+    }
+}
+
+fn observation_inside_update(a: &Args, rep: &mut Report, r: &mut Rng) {
+    use metrics_util::registry::{GenerationalStorage, Registry};
+    let trials = a.budget(40, 2000);
+    for _ in 0..trials {
+        let (clock, mock) = quanta::Clock::mock();
+        mock.increment(Duration::from_secs(1000));
+        let timeout = Duration::from_secs(10);
+        let recency: Recency<Key> = Recency::new(clock.clone(), MetricKindMask::COUNTER, Some(timeout));
+        let reg = std::sync::Arc::new(Registry::new(GenerationalStorage::new(PauseStorage { made: Default::default() })));
+        let key = Key::from_name("paused");
+        let first = 1 + r.below(5);
+        reg.get_or_create_counter(&key, |c| metrics::CounterFn::increment(c, first));
+        let observe = |reg: &Registry<Key, GenerationalStorage<PauseStorage>>| -> Option<u64> {
+            let mut out = None;
+            for (k, hnd) in reg.get_counter_handles() {
+                if recency.should_store_counter(&k, hnd.get_generation(), reg) {
+                    out = Some(hnd.get_inner().v.load(std::sync::atomic::Ordering::SeqCst));
+                }
+            }
+            out
+        };
+        let o1 = observe(&reg);
+        // arm the pause and start the second update on another thread
+        let (entered_tx, entered_rx) = std::sync::mpsc::channel();
+        let (release_tx, release_rx) = std::sync::mpsc::channel();
+        let inner = reg.get_counter(&key).map(|g| g.get_inner().clone());
+        if let Some(pc) = &inner {
+            *pc.gate.lock().unwrap() = Some((entered_tx, release_rx));
+        }
+        let second = 1 + r.below(5);
+        let reg2 = reg.clone();
+        let key2 = key.clone();
+        let upd = std::thread::spawn(move || reg2.get_or_create_counter(&key2, |c| metrics::CounterFn::increment(c, second)));
+        let paused = entered_rx.recv_timeout(Duration::from_secs(5)).is_ok();
+        // time passes (less than the timeout), an observation lands while the update is in progress
+        mock.increment(Duration::from_secs(4));
+        let o2 = observe(&reg);
+        let _ = release_tx.send(());
+        let _ = upd.join();
+        // more than the timeout after the observation above, but the update completed in between
+        mock.increment(Duration::from_secs(11));
+        let o3 = observe(&reg);
+        rep.case(metrics_hash(first, second), paused);
+        if !paused {
+            rep.inconclusive("the update never reached the storage double");
+            continue;
+        }
+        if o1 != Some(first) || o2.is_none() || o3 != Some(first + second) {
+            rep.violation("C12:dropped-too-early:update-in-progress-during-observation", jo! {"what" => "a counter whose update was in progress during one observation (and completed right after it) was not kept with its new value by the next observation, although it had been updated since the previous one", "observation_before" => format!("{:?}", o1), "observation_during_update" => format!("{:?}", o2), "observation_after" => format!("{:?}", o3), "expected_after" => first + second, "timeout_secs" => 10});
+        }
+    }
+}
+
+fn metrics_hash(a: u64, b: u64) -> u64 {
+    crate::rt::mix(a.wrapping_mul(31), b ^ 0xC12)
+}
+
 fn run_registry(a: &Args) -> Report {
     let mut rep = Report::new("C12", &a.leg, a.seed);
     let mut r = Rng::new(a.shard_seed());
+    observation_inside_update(a, &mut rep, &mut r);
     let n = a.budget(5000, 500_000);
     for _ in 0..n {
         let (clock, mock) = quanta::Clock::mock();
